@@ -100,3 +100,158 @@ for var, kw, loops_ in ((None, {}, WAIT_LOOP_DEFAULT), ("shared", SHARED, WAIT_L
              loops={0: dict(invariant=[("wf", "tp_wf(self)")] + ([
                  ("subset", "forall(lambda t=Task: implies(t in self._tasks, ENTRY(t in self._tasks)))")] if single else []),
                  modifies=["content(self._tasks)", "content(self._done)"])}, **kw)
+
+# ---------------------------------------------------------------------------------------------------------------------
+# event sources and the multiplexer (C12 global order, C03, C15)
+# ---------------------------------------------------------------------------------------------------------------------
+EV = "basana.core.event."
+contract(EV + "EventSource.pop", abstract=True, props=["C12"], returns="Opt[Event]",
+         modifies=["owned(self)"],
+         notes="interface contract of every event source: pop() returns an event or None and changes only the source")
+contract(EV + "FifoQueueEventSource.pop", props=["C12"], returns="Opt[Event]",
+         ensures=[("fifo", "ite(old(len(self._queue)) == 0, is_none(result) and len(self._queue) == 0, "
+                           "not_none(result) and same_object(result, old(seq_at(self._queue, 0))) and len(self._queue) == old(len(self._queue)) - 1 "
+                           "and forall(lambda i=Int: implies(0 <= i and i < len(self._queue), same_object(seq_at(self._queue, i), old(seq_at(self._queue, i + 1))))))")],
+         modifies=["content(self._queue)"])
+contract(EV + "FifoQueueEventSource.push", props=["C12"],
+         ensures=[("appended", "len(self._queue) == old(len(self._queue)) + 1 and same_object(seq_at(self._queue, old(len(self._queue))), event) "
+                               "and forall(lambda i=Int: implies(0 <= i and i < old(len(self._queue)), same_object(seq_at(self._queue, i), old(seq_at(self._queue, i)))))")],
+         modifies=["content(self._queue)"])
+
+MUX = D + "EventMultiplexer."
+# slot(s): the prefetched (look-ahead) event of source s
+specfun("mux_due", ["m", "s", "t"], "(s in m._prefetched_events) and not_none(m._prefetched_events[s]) and m._prefetched_events[s].when <= t")
+contract(MUX + "__init__", props=["C12"], ensures=[("empty", "len(self._prefetched_events) == 0")], modifies=["self"])
+contract(MUX + "add", props=["C12"],
+         ensures=[("added", "source in self._prefetched_events"),
+                  ("others", "forall(lambda s=EventSource: implies(not same_object(s, source), (s in self._prefetched_events) == old(s in self._prefetched_events)))"),
+                  ("slots_kept", "forall(lambda s=EventSource: implies(old(s in self._prefetched_events), same_object(self._prefetched_events[s], old(self._prefetched_events[s]))))"),
+                  ("new_slot_empty", "implies(not old(source in self._prefetched_events), is_none(self._prefetched_events[source]))")],
+         modifies=["content(self._prefetched_events)"])
+MUX_MOD = ["content(self._prefetched_events)", "every(EventSource)"]
+contract(MUX + "_prefetch", props=["C12"],
+         ensures=[("sources_kept", "forall(lambda s=EventSource: (s in self._prefetched_events) == old(s in self._prefetched_events))"),
+                  ("filled_kept", "forall(lambda s=EventSource: implies(old(s in self._prefetched_events) and old(not_none(self._prefetched_events[s])), "
+                                  "same_object(self._prefetched_events[s], old(self._prefetched_events[s]))))")],
+         modifies=MUX_MOD,
+         loops={0: dict(invariant=[
+             ("sources_kept", "forall(lambda s=EventSource: (s in self._prefetched_events) == ENTRY(s in self._prefetched_events))"),
+             ("filled_kept", "forall(lambda s=EventSource: implies(ENTRY(s in self._prefetched_events) and ENTRY(not_none(self._prefetched_events[s])), "
+                             "same_object(self._prefetched_events[s], ENTRY(self._prefetched_events[s]))))")],
+             modifies=MUX_MOD)})
+contract(MUX + "peek_next_event_dt", props=["C12", "C03"], returns="Opt[DT]",
+         ensures=[("sources_kept", "forall(lambda s=EventSource: (s in self._prefetched_events) == old(s in self._prefetched_events))"),
+                  ("filled_kept", "forall(lambda s=EventSource: implies(old(s in self._prefetched_events) and old(not_none(self._prefetched_events[s])), "
+                                  "same_object(self._prefetched_events[s], old(self._prefetched_events[s]))))"),
+                  ("none_iff_no_event", "is_none(result) == forall(lambda s=EventSource: implies(s in self._prefetched_events, is_none(self._prefetched_events[s])))"),
+                  ("minimum", "implies(not_none(result), forall(lambda s=EventSource: implies((s in self._prefetched_events) and not_none(self._prefetched_events[s]), result <= self._prefetched_events[s].when)))"),
+                  ("attained", "implies(not_none(result), exists(lambda s=EventSource: (s in self._prefetched_events) and not_none(self._prefetched_events[s]) and self._prefetched_events[s].when == result))")],
+         modifies=MUX_MOD)
+contract(MUX + "pop", props=["C12", "C03", "C15"], returns="Tuple[Opt[EventSource],Opt[Event]]",
+         ensures=[("both_or_none", "is_none(result[0]) == is_none(result[1])"),
+                  ("sources_kept", "forall(lambda s=EventSource: (s in self._prefetched_events) == old(s in self._prefetched_events))"),
+                  ("due", "implies(not_none(result[1]), result[1].when <= max_dt and old(result[0] in self._prefetched_events))"),
+                  ("consumed", "implies(not_none(result[0]), is_none(self._prefetched_events[result[0]]))"),
+                  # the oldest due event is the one returned: nothing left in the look-ahead slots is due and older
+                  ("oldest", "implies(not_none(result[1]), forall(lambda s=EventSource: implies(mux_due(self, s, max_dt), result[1].when <= self._prefetched_events[s].when)))"),
+                  ("none_means_nothing_due", "implies(is_none(result[1]), forall(lambda s=EventSource: not mux_due(self, s, max_dt)))"),
+                  # an event already waiting in a slot is returned by this call or still there: never dropped, never duplicated
+                  ("no_loss", "forall(lambda s=EventSource: implies(old(s in self._prefetched_events) and old(not_none(self._prefetched_events[s])), "
+                              "ite(not_none(result[0]) and same_object(s, result[0]), same_object(result[1], old(self._prefetched_events[s])), "
+                              "same_object(self._prefetched_events[s], old(self._prefetched_events[s])))))")],
+         modifies=MUX_MOD,
+         loops={0: dict(invariant=[
+             ("sources_kept", "forall(lambda s=EventSource: (s in self._prefetched_events) == ENTRY(s in self._prefetched_events))"),
+             ("both", "is_none(ret_source) == is_none(ret_event)"),
+             ("cand", "implies(not_none(ret_event), (ret_source in SEEN) and same_object(self._prefetched_events[ret_source], ret_event) and ret_event.when <= max_dt)"),
+             ("oldest", "forall(lambda s=EventSource: implies((s in SEEN) and mux_due(self, s, max_dt), not_none(ret_event) and ret_event.when <= self._prefetched_events[s].when))"),
+             ("filled_kept", "forall(lambda s=EventSource: implies(ENTRY(s in self._prefetched_events) and ENTRY(not_none(self._prefetched_events[s])), "
+                             "same_object(self._prefetched_events[s], ENTRY(self._prefetched_events[s]))))")],
+             modifies=MUX_MOD)})
+
+# ---------------------------------------------------------------------------------------------------------------------
+# user callables the dispatcher merely stores: event handlers, scheduled jobs, idle handlers.  Awaiting one is a
+# suspension point; it may raise anything (C14: "An exception in one handler or job never prevents ...")
+# ---------------------------------------------------------------------------------------------------------------------
+for nm in ("handler", "job", "idle_handler"):
+    contract("opaque:" + nm, may_suspend=True, raises={"Exception": [], "CancelledError": []}, returns="Any",
+             notes="arbitrary user coroutine function: may suspend, may raise any Exception, may be cancelled")
+
+# what user code and other tasks may do to a dispatcher while one of its coroutines is suspended (public API only):
+# schedule jobs, request stop, push events into sources.  They never write the private clock or the subscription tables
+# (subscribing while running is refused by an assert), and the scheduler queue only grows (only the dispatch loop pops).
+DISP_RELY = dict(
+    rely_havoc=["self._stopped", "content(self._scheduler_queue._queue)", "every(EventSource)"],
+    rely=[("stop_is_sticky", "implies(old(self._stopped), self._stopped)"),
+          ("jobs_only_added", "forall(lambda j=ScheduledJob: implies(old(j in self._scheduler_queue._queue), j in self._scheduler_queue._queue))")])
+
+ED = D + "EventDispatcher."
+TG = H + "TaskGroup."
+STOP_MOD = ["self._stopped", "every(Task, 'cancel_requested')"]
+contract(TG + "__init__", props=["C14"], ensures=[("empty", "len(self._tasks) == 0 and not self._exiting")], modifies=["self"])
+contract(TG + "_cancel", props=["C14"], returns="List[Task]",
+         ensures=[("all_requested", "forall(lambda i=Int: implies(0 <= i and i < len(self._tasks), seq_at(self._tasks, i).finished or seq_at(self._tasks, i).cancel_requested))")],
+         modifies=["every(Task, 'cancel_requested')"],
+         loops={0: dict(invariant=[("seen", "forall(lambda i=Int: implies(0 <= i and i < IDX, seq_at(pending, i).finished or seq_at(pending, i).cancel_requested))"),
+                                   ("finished_kept", "forall(lambda t=Task: t.finished == ENTRY(t.finished))")],
+                        modifies=["every(Task, 'cancel_requested')"])})
+contract(TG + "cancel", props=["C14"],
+         ensures=[("all_requested", "forall(lambda i=Int: implies(0 <= i and i < len(self._tasks), seq_at(self._tasks, i).finished or seq_at(self._tasks, i).cancel_requested))")],
+         modifies=["every(Task, 'cancel_requested')"])
+contract(TG + "create_task", props=["C14"], types={"coro": "Any"}, returns="Task",
+         raises={"AssertionError": [("exiting", "self._exiting")]},
+         ensures=[("appended", "fresh(result) and len(self._tasks) == old(len(self._tasks)) + 1 and same_object(seq_at(self._tasks, old(len(self._tasks))), result)"),
+                  ("kept", "forall(lambda i=Int: implies(0 <= i and i < old(len(self._tasks)), same_object(seq_at(self._tasks, i), old(seq_at(self._tasks, i)))))")],
+         modifies=["content(self._tasks)"])
+
+contract(ED + "stop", props=["C14"],
+         ensures=[("stopped", "self._stopped"),
+                  ("pool_cancel_requested", "forall(lambda t=Task: implies(t in self._handlers_task_pool._tasks, t.finished or t.cancel_requested))")],
+         modifies=STOP_MOD)
+contract(ED + "stopped", props=["C14"], returns="Bool", ensures=[("def", "result == self._stopped")], modifies=[])
+contract(ED + "schedule", props=["C13"], types={"when": "DT"},
+         ensures=[("queued", "exists(lambda j=ScheduledJob: fresh(j) and j.when == when and (j in self._scheduler_queue._queue) "
+                             "and forall(lambda o=ScheduledJob: (o in self._scheduler_queue._queue) == (old(o in self._scheduler_queue._queue) or same_object(o, j))))")],
+         raises={"AssertionError": []},
+         modifies=["content(self._scheduler_queue._queue)"])
+# C14 fault isolation: whatever the handler / job raises (any Exception) is absorbed here; only cancellation (a
+# BaseException) may propagate.  The declared raises set is the obligation: an `Exception` escaping fails `no_escape`.
+contract(ED + "_call_event_handler", props=["C14", "C12"], types={"event": "Event", "handler": "Fun"}, returns="Any",
+         may_suspend=True, raises={"CancelledError": []}, modifies=STOP_MOD, **DISP_RELY)
+contract(ED + "_execute_scheduled", props=["C14", "C13"], types={"dt": "DT", "job": "Fun"},
+         # C13: "with the dispatcher clock at or after its scheduled time" -- demanded where the job is handed to the pool
+         requires=[("clock_reached", "implies(typeis(self, 'BacktestingDispatcher'), not_none(self._last_dt) and self._last_dt >= dt)"),
+                   ("due", "implies(typeis(self, 'RealtimeDispatcher'), dt <= clock('utc'))")],
+         may_suspend=True, raises={"CancelledError": []}, modifies=STOP_MOD, **DISP_RELY)
+
+# subscription tables (C12: "each event exactly once to each handler subscribed to its source (duplicate subscriptions
+# are ignored) ... handlers started in subscription order")
+specfun("no_dups", ["l"], "forall(lambda i=Int: forall(lambda j=Int: implies(0 <= i and i < j and j < len(l), not same_object(seq_at(l, i), seq_at(l, j)))))")
+specfun("prefix_kept", ["l", "n"], "forall(lambda i=Int: implies(0 <= i and i < n, same_object(seq_at(l, i), old(seq_at(l, i)))))")
+specfun("has_handler", ["l", "h"], "exists(lambda i=Int: 0 <= i and i < len(l) and same_object(seq_at(l, i), h))")
+specfun("grew_by_at_most_one", ["l"], "len(l) >= old(len(l)) and len(l) <= old(len(l)) + 1 and prefix_kept(l, old(len(l)))")
+contract(ED + "subscribe_all", props=["C12"], types={"event_handler": "Fun", "front_run": "Bool"},
+         requires=[("no_dups", "no_dups(self._sniffers_pre) and no_dups(self._sniffers_post)")],
+         raises={"AssertionError": [("running", "self._running")]},
+         ensures=[("no_dups", "no_dups(self._sniffers_pre) and no_dups(self._sniffers_post)"),
+                  ("subscribed", "has_handler(self._sniffers_pre, event_handler) if front_run else has_handler(self._sniffers_post, event_handler)"),
+                  ("order_kept", "grew_by_at_most_one(self._sniffers_pre) and grew_by_at_most_one(self._sniffers_post)")],
+         modifies=["content(self._sniffers_pre)", "content(self._sniffers_post)"])
+specfun("handlers_wf", ["d"], "forall(lambda s=EventSource: implies(s in d._event_handlers, no_dups(d._event_handlers[s]))) and "
+        "forall(lambda s1=EventSource: forall(lambda s2=EventSource: implies((s1 in d._event_handlers) and (s2 in d._event_handlers) and not same_object(s1, s2), "
+        "not same_object(d._event_handlers[s1], d._event_handlers[s2]))))")
+contract(ED + "subscribe", props=["C12"], types={"event_handler": "Fun"},
+         requires=[("no_dups", "handlers_wf(self)")],
+         raises={"AssertionError": [("running", "self._running")]},
+         ensures=[("no_dups", "handlers_wf(self)"),
+                  ("source_known", "(source in self._event_mux._prefetched_events) and (source in self._event_handlers)"),
+                  ("subscribed", "has_handler(self._event_handlers[source], event_handler)"),
+                  ("order_kept", "implies(old(source in self._event_handlers), same_object(self._event_handlers[source], old(self._event_handlers[source])) "
+                                 "and grew_by_at_most_one(self._event_handlers[source]))"),
+                  ("first", "implies(not old(source in self._event_handlers), len(self._event_handlers[source]) == 1)"),
+                  ("others_kept", "forall(lambda s=EventSource: implies(old(s in self._event_handlers) and not same_object(s, source), "
+                                  "(s in self._event_handlers) and same_object(self._event_handlers[s], old(self._event_handlers[s])) "
+                                  "and len(self._event_handlers[s]) == old(len(self._event_handlers[s])) and prefix_kept(self._event_handlers[s], len(self._event_handlers[s]))))"),
+                  ("producer_registered", "implies(not_none(source.producer), source.producer in self._producers)")],
+         modifies=["content(self._event_mux._prefetched_events)", "content(self._event_handlers)",
+                   "content(self._event_handlers[source])", "content(self._producers)"])
